@@ -96,6 +96,10 @@ def cuts_txt(cuts):
 
 def check_chunking(ctx, f, sig, cuts, model):
     text, out = D.run_online(f, sig, cuts)
+    if not (isinstance(cuts, dict) and cuts.get("@@omit")):
+        if not hasattr(ctx, "pending_mirror"):
+            ctx.pending_mirror = []
+        ctx.pending_mirror.append((f, sig, cuts, text, out))
     rep = {"monitor": "onc", "spec": text, "formula": F.to_proto(f), "signals": {v: [[str(t), x] for t, x in sig[v]] for v in sig},
            "cuts": cuts_txt(cuts), "impl": out}
     if out[0] != "ok":
@@ -133,6 +137,11 @@ def check_consistency(ctx, f, sig, cuts, qs):
     run that feeds everything in one update (used where the values themselves are a known finding)."""
     text, base = D.run_online(f, sig, [])
     _, out = D.run_online(f, sig, cuts)
+    if not hasattr(ctx, "pending_mirror"):
+        ctx.pending_mirror = []
+    ctx.pending_mirror.append((f, sig, [], text, base))
+    if not (isinstance(cuts, dict) and cuts.get("@@omit")):
+        ctx.pending_mirror.append((f, sig, cuts, text, out))
     rep = {"kind": "consistency", "monitor": "onc", "spec": text, "formula": F.to_proto(f),
            "signals": {v: [[str(t), x] for t, x in sig[v]] for v in sig}, "cuts": cuts_txt(cuts), "impl": out, "impl_one_update": base}
     if base[0] != "ok":
@@ -177,6 +186,13 @@ def gen_case(rng):
 
 
 def explore(ctx, rng, count):
+    try:
+        _explore(ctx, rng, count)
+    finally:
+        D.flush_online_mirror(ctx)
+
+
+def _explore(ctx, rng, count):
     limit = ctx.budget(64, 512)
     for _ in range(count):
         f, sig = gen_case(rng)
